@@ -719,10 +719,27 @@ func (so *SimpleOptimizer) transform(node parser.Node) (parser.Expr, bool) {
 				so.scope.define(spec.Ident.Name)
 			}
 		case token.Var, token.Const:
+			// An expression of a const group that is repeated implicitly is
+			// compiled once per member, each time in the scope of the members
+			// before it: folding it in place would fix the meaning its names
+			// have for the first member.
+			repeated := false
+			if decl.Tok == token.Const {
+				for _, sp := range decl.Specs {
+					spec := sp.(*parser.ValueSpec)
+					repeated = repeated || len(spec.Values) < len(spec.Idents)
+					for _, v := range spec.Values {
+						repeated = repeated || v == nil
+					}
+				}
+			}
 			for _, sp := range decl.Specs {
 				spec := sp.(*parser.ValueSpec)
 				for i := range spec.Idents {
 					so.scope.define(spec.Idents[i].Name)
+					if repeated {
+						continue
+					}
 					if i < len(spec.Values) && spec.Values[i] != nil {
 						v := spec.Values[i]
 						if expr, ok = so.transform(v); ok {
